@@ -310,6 +310,85 @@ func inverse(part int) {
 	}
 }
 
+// judgeLight reads the file and compares TimeAt at the given ticks only.
+func judgeLight(res uint16, evs []tev, queries []int64, family string) {
+	data, err := buildFile(res, evs, 0)
+	if err != nil {
+		ctx.Guard(false, "cannot build file: %v", err)
+		return
+	}
+	var s *smf.SMF
+	c := engine.Catch(func() { s, err = smf.ReadFrom(bytes.NewReader(data)) })
+	if c.Panicked || err != nil {
+		report("tempomap:read:"+family, res, evs, -1, fmt.Sprintf("cannot read the file: %v %s", err, c.Value))
+		return
+	}
+	for _, q := range queries {
+		ex, segs := exact(res, evs, q)
+		if ex.Cmp(big.NewRat(horizonUS, 1)) > 0 {
+			continue
+		}
+		ctx.Eval()
+		var got int64
+		c := engine.Catch(func() { got = s.TimeAt(q) })
+		if c.Panicked {
+			report(c.Sig+":TimeAt", res, evs, q, "TimeAt panicked: "+c.Value)
+			return
+		}
+		diff := new(big.Rat).Sub(new(big.Rat).SetInt64(got), ex)
+		diff.Abs(diff)
+		if diff.Cmp(big.NewRat(int64(segs), 1)) > 0 {
+			exf, _ := ex.Float64()
+			report("timeat:value:"+family, res, evs, q, fmt.Sprintf("TimeAt=%d us, exact integral %.3f us, %d segments", got, exf, segs))
+			return
+		}
+		if len(evs) >= 2 {
+			ctx.NontrivialN(1)
+		}
+	}
+}
+
+// tempoValues: the tempo payload swept over the 24-bit range (thorough: every
+// value; quick: every 61st plus the neighbourhood of every power of two and of
+// the common tempi), as a single tempo event queried far out (an error of a
+// nanosecond per quarter note must show), and as two events whose values
+// differ by one (nearly equal tempi must remain two segments).
+func tempoValues(part, parts int) {
+	far := func(res uint16) []int64 { return []int64{int64(res) * 3000, 1 << 20, 1<<31 - 1} }
+	one := func(u uint32) {
+		for _, res := range []uint16{960, 24} {
+			judgeLight(res, []tev{{0, u}}, far(res), "value-sweep:one-event")
+			ctx.Add("tempo_values_swept", 1)
+		}
+		if u < 0xFFFFFF {
+			judgeLight(480, []tev{{0, u}, {480, u + 1}}, []int64{481, 1 << 20}, "value-sweep:neighbour-values")
+			judgeLight(480, []tev{{7, u + 1}, {1, u}}, []int64{9, 1 << 20}, "value-sweep:neighbour-values")
+		}
+	}
+	step := uint32(ctx.Pick(61, 1))
+	for u := uint32(1 + part); u <= 0xFFFFFF; u += uint32(parts) * step {
+		one(u)
+	}
+	if step > 1 && part == 0 {
+		seen := map[uint32]bool{}
+		var specials []uint32
+		for b := uint(0); b <= 24; b++ {
+			for d := -3; d <= 3; d++ {
+				specials = append(specials, uint32(int64(1)<<b+int64(d)))
+			}
+		}
+		for bpm := 20; bpm <= 300; bpm++ {
+			specials = append(specials, uint32(6e7/float64(bpm)), uint32(6e7/float64(bpm))+1)
+		}
+		for _, u := range specials {
+			if u >= 1 && u <= 0xFFFFFF && !seen[u] {
+				seen[u] = true
+				one(u)
+			}
+		}
+	}
+}
+
 func main() {
 	ctx = engine.Start("C11", "exploration")
 	if ctx.ReplayPath != "" {
@@ -339,7 +418,8 @@ func main() {
 	}
 	ctx.Jobs("maps", len(jobs), func(j int) { maps(jobs[j].r, jobs[j].f) })
 	ctx.Jobs("inverse", 8, func(j int) { inverse(j) })
+	ctx.Jobs("tempo-values", 16, func(j int) { tempoValues(j, 16) })
 	ctx.Sample(map[string]interface{}{"resolution": 480, "tempo_events(gap,us)": [][2]int{{480, 250000}, {0, 500001}, {1, 16777215}}, "queries": "0, every tempo tick +-2, 2^20, 2^31-1"})
 	ctx.Guard(ctx.NontrivialCount() > 1000, "too few multi-segment queries")
-	ctx.Finish("all tempo maps of 0..3/4 tempo events over gaps {0,1,479,480,100000} x microseconds-per-quarter {0,1,250000,500000,500001,0xFFFFFF} for 6 resolutions, queried at 0, every tempo tick +-2, 2^20, 2^31-1 within a 100-day horizon against the exact rational integral; iterator times; Ticks(Duration(n)) for boundary n and n in 0..200000 on four (resolution, tempo) pairs; non-trivial = queries on maps with at least two tempo events")
+	ctx.Finish("all tempo maps of 0..3/4 tempo events over gaps {0,1,479,480,100000} x microseconds-per-quarter {0,1,250000,500000,500001,0xFFFFFF} for 6 resolutions, queried at 0, every tempo tick +-2, 2^20, 2^31-1 within a 100-day horizon against the exact rational integral; every 61st (thorough: every) 24-bit tempo value as a single event queried far out and as two events with neighbouring values; iterator times; Ticks(Duration(n)) for boundary n and n in 0..200000 on four (resolution, tempo) pairs; non-trivial = queries on maps with at least two tempo events")
 }
